@@ -390,7 +390,9 @@ pub fn aggregate(
             "violations": unknown,
             "verdict": match exit { 0 => "held", 1 => "violated", _ => "inconclusive" },
         });
-        let dir = verif_dir().join("evidence");
+        // diagnostics (tools/coverage.sh) redirect the evidence so that the committed files keep
+        // coming from the registered commands only
+        let dir = std::env::var("VERIF_EVIDENCE_DIR").map(std::path::PathBuf::from).unwrap_or_else(|_| verif_dir().join("evidence"));
         let _ = std::fs::create_dir_all(&dir);
         std::fs::write(dir.join(format!("{}.json", meta.id)), serde_json::to_string_pretty(&ev).unwrap())
             .expect("write evidence");
